@@ -44,6 +44,8 @@ ASSUMPTIONS = [
     "'refused' means any exception; a valid id is anything uuid.UUID() parses",
     "the wall clock of nixio.util.util is replaced by a controlled clock (build time != attempt time) so that an "
     "op that only touches updated_at changes the twin's walk deterministically",
+    "lattice files are current-layout files whose header was relabelled; for versions other than the library's "
+    "the content comparison masks Property nodes (nixio reads pre-1.1.1 properties from a different layout)",
     "mutation of the twin is judged by the canonical walk only (bytes of a read-write session are not compared)",
     "attempts are independent by construction (fresh twin per attempt, read-only file restored if it ever changed), "
     "so a violating attempt is reported as a case with this single attempt",
@@ -285,7 +287,9 @@ def check_fresh(ctx, case, keybase, path, f, old_id, lib):
     raw = raw_header(path)
     if raw["version"] != list(lib) or raw["format"] != "nix":
         v("raw-header", {"got": raw})
-    if not is_uuid(raw["id"]) or (old_id is not None and raw["id"] == old_id):
+    if not is_uuid(raw["id"]):
+        v("id-invalid", {"raw": repr(raw["id"])})
+    elif old_id is not None and raw["id"] == old_id:
         v("id-not-fresh", {"old": old_id, "raw": raw["id"]})
     extra = [n for n in raw["objects"] if n not in ("data", "metadata")]
     if extra:
@@ -743,6 +747,10 @@ def _generate(strategy, spec, fn):
 
 def run_shard(spec, ctx):
     part = spec["part"]
+    # every nixio File.close() and every refused open is followed by a full gc.collect(); with the modules of
+    # the harness loaded that costs ~25 ms each - park the long-lived objects in the permanent generation
+    gc.collect()
+    gc.freeze()
     # nixio prints diagnostics ("MultiTag Creation Failed ...") to stdout
     with fake_clock() as clock, contextlib.redirect_stdout(io.StringIO()):
         if part == "lattice":
